@@ -29,6 +29,11 @@ CLAIMS = {
   text="Proved in Lean: from zero weights and P0=I/alpha (alpha>0), after ANY list of samples P*(alpha I + sum r r^T)=1 and (alpha I + sum r r^T) w = sum r y^T (C10_rls_is_ridge; the gain denominator is >= 1), hence w is the unique regularised least-squares optimum with lambda=alpha on the samples seen so far (C10_rls_optimal, via C04_optimal); the executable rlsStep is exactly that recursion (rlsStep_P/rlsStep_w); LMS performs w - alpha_n (pred - y) r^T and consumes exactly one schedule element per update; a training call updates exactly on the steps i with i % learn_every = 0 (or the single step of a one-step call) and returns for each step the prediction made before that step's update; the IP gradient steps are the documented formulas and a fit applies them epochs x timesteps times in order. Tied to the code by running the same definitions on exact rationals against RLS / LMS / FORCE trained in random splits of successive train calls (weights, bias, P after every call, every output; 1e-9) together with the closed form, and on Float against IPReservoir.fit (a, b, state).",
   note="Trusted: Lean kernel + standard axioms; lean/RpyModel/Online.lean; the harness. Not verified: float rounding of the recursions (1e-9 on <= 40 well-conditioned updates), libm tanh/exp in the Float regime.",
   design="§6 C10"),
+ "C19": dict(
+  technique="Lean 4 proof over (ordered) fields (list algebra for the metric laws; Mathlib charpoly lemmas for triangular spectra and similarity) + correspondence in exact rationals",
+  text="Proved in Lean: mse is the mean of squared differences; mse(a y+c, a yh+c) = a^2 mse, the non-negative root scales by |a| and its square is mse; mean/variance respond affinely/quadratically; R^2 = 1 for perfect predictions, 0 for the mean predictor, invariant under y -> a y + c (a != 0); a dimension-wise metric's entry j is the metric of column j over all rows; different shapes are rejected; for an upper-triangular matrix the characteristic polynomial is prod (X - d_i) so the eigenvalues are the diagonal, conjugation by an invertible (permutation) matrix keeps the characteristic polynomial, the effective matrix is lr W + (1-lr) I (triangular with diagonal lr d_i + 1 - lr), and rhoDiag returns the attained maximum modulus. Tied to the code by exact-rational evaluation of every metric (global and per dimension, all normalisations, fresh inputs and in sequence on the same objects, input purity) and by spectral_radius / effective_spectral_radius on permutation-conjugated rational triangular matrices in dense / csr / csc storage.",
+  note="Trusted: Lean kernel + standard axioms; lean/RpyModel/Metrics.lean; the harness. NOT verified: numpy.linalg.eig and ARPACK eigs on general matrices (only compared on the family whose spectrum is proved, 1e-6); np.quantile (q1q3) is checked by the harness oracle only; complex eigenvalues are not in the proved family yet.",
+  design="§6 C19"),
 }
 
 NOT_YET = "check not built yet in this revision (planned, see DESIGN.md §11)"
